@@ -692,3 +692,9 @@ def run(ctx):
         else:
             ctx.bad(R_val, "mclq|min-max-ordering", "%s:%d" % (rd.file, ta[2]), "the reader accepts `%s` (%s) but the type's validity predicate is `%s` (%s)" % (ta[1], ta[0], tb[1], tb[0]),
                     "a record the writer/validator considers valid (a level liquid: min == max) is rejected on read — and the MCNK parser swallows that error, so the liquid silently disappears after build→serialise→parse")
+
+
+def run_extra(ctx):
+    """rules armed after run(): shared rules that need nothing from run()'s locals"""
+    from ..shared import setters_keep_other_settings_rule
+    setters_keep_other_settings_rule(ctx, [ctx.prog.crate(c) for c in ["wow_adt"]], "C14", "adt_builder::AdtBuilder$", floor=15)
